@@ -146,3 +146,22 @@ Proof.
   right; eexists; eexists; eexists; eexists; (split; [reflexivity|]);
   repeat split; try assumption; try (eexists; split; [reflexivity|]; assumption).
 Qed.
+
+(* ---- coincident_parameters: a reported shared segment passed the closeness check on exactly the reported sub-arcs ----
+   Whatever the oracles answer: if the function returns ((s0, t0), (s1, t1)) then vector_close was asked about, and accepted,
+   the pair (specialize(curve1, s0, s1) or curve1 itself when (s0, s1) = (0, 1)) vs (specialize(curve2, t0, t1) or curve2 itself
+   when (t0, t1) = (0, 1)), where curve1, curve2 are the nets returned by make_same_degree. *)
+Theorem coincident_result_passed_the_closeness_check o_msd o_loc o_spec o_vc n1 n2 s0 t0 s1 t1 :
+  py_coincident_parameters o_msd o_loc o_spec o_vc n1 n2 = VTup [VTup [s0; t0]; VTup [s1; t1]] ->
+  let m1 := vidx (o_msd n1 n2) 0 in let m2 := vidx (o_msd n1 n2) 1 in
+  (t0 = VQ 0 /\ t1 = VQ 1 /\ truth (o_vc (o_spec m1 s0 s1) m2) = true) \/
+  (s0 = VQ 0 /\ s1 = VQ 1 /\ truth (o_vc m1 (o_spec m2 t0 t1)) = true) \/
+  truth (o_vc (o_spec m1 s0 s1) (o_spec m2 t0 t1)) = true.
+Proof.
+  unfold py_coincident_parameters. cbv zeta.
+  set (m1 := vidx (o_msd n1 n2) 0). set (m2 := vidx (o_msd n1 n2) 1).
+  intros H.
+  repeat match type of H with
+  | context [if truth ?c then _ else _] => let E := fresh "E" in destruct (truth c) eqn:E
+  end; try discriminate H; injection H as <- <- <- <-; auto.
+Qed.
